@@ -459,12 +459,20 @@ def run(ctx):
                           allow_dummy=False)
         c.update({"kind": "exact", "methods": ["ps", "ps2"], "imag": [False, True], "steps": [0.4, 0.2, 0.1], "nsteps": 3})
         add(c)
+    # non-uniform per-bond limits (compress_config.max_dims): exact bond dimensions, and exact + random slack
+    for i in range(3 if quick else 12):
+        # spin models: without a quantum number the exact bond dimension is min(dim subtree, dim rest)
+        c = gen_tree_case(rng, 0, n=rng.randrange(4, 7), shape=["random", "binary", "comb", "linear"][i % 4], kind="spin", max_dofs=6,
+                          allow_dummy=False)
+        c.update({"kind": "caps", "methods": ["ps2", "pc"], "criteria": ["fixed", "both"], "imag": [False, True], "step": 0.05, "nsteps": 3,
+                  "extra": None if i % 2 == 0 else [rng.randrange(0, 3) for _ in range(c["n"])]})
+        add(c)
     # one case per process (start-up ~3 s each); generous time-out: a loaded machine must not look like a hang
     shards = [{"seed": ctx.seed, "cases": [c]} for c in ocases]
     ores = ctx.impl_par("c12_oracle.py", shards, timeout=3000, par=16)
     oracle_fail = []
     oracle_runs = 0
-    ostats = {"exact": 0, "small": 0, "chain": 0, "aux": 0, "coeff": 0, "run": 0}
+    ostats = {"exact": 0, "small": 0, "chain": 0, "aux": 0, "coeff": 0, "run": 0, "caps": 0}
     worst = {}
     regimes = {"exact_complete": 0, "second_order_after_bond_shrink": 0}
     ratios = {}
